@@ -44,8 +44,11 @@ BIN = {"+": "PLUS", "-": "SUBTRACT", "*": "MULTIPLE", "/": "DIVIDE"}
 
 
 class G:
-    def __init__(self, rng):
+    def __init__(self, rng, rich=True):
         self.r = rng
+        self.rich_on = rich          # CASE / CAST / EXTRACT / IF / windows / unary / sub-queries / derived tables / WITH / Hive clauses
+        self.depth = 0               # nesting depth of sub-queries being generated
+        self.hive = False            # the statement generated last uses a clause only the Hive printer emits
 
     def pick(self, xs):
         return self.r.choice(xs)
@@ -58,6 +61,8 @@ class G:
 
     def value(self):
         """a compute-level expression: (text, tree)"""
+        if self.rich_on and self.r.random() < 0.22:
+            return self.rich()
         k = self.r.random()
         if k < 0.4:
             n = self.name()
@@ -66,7 +71,7 @@ class G:
                 return "%s.%s" % (t, n), col(n, t)
             return n, col(n)
         if k < 0.65:
-            l = self.pick(["1", "42", "'x'", "'it''s'", "3.14", "NULL", "TRUE"])
+            l = self.pick(["1", "42", "'x'", "'it''s'", "3.14", "NULL", "TRUE", "null", "true", "false"] if self.rich_on else ["1", "42", "'x'", "'it''s'", "3.14", "NULL", "TRUE"])
             return l, lit(l)
         if k < 0.8:
             a, ta = self.atom()
@@ -76,6 +81,106 @@ class G:
         a, ta = self.atom()
         f = self.pick(["f", "coalesce", "lower"])
         return "%s(%s, 1)" % (f, a), fn(f, ta, lit("1"))
+
+    def sub_select(self):
+        """a nested query (text, tree), at most two levels deep"""
+        self.depth += 1
+        try:
+            return self.select() if self.r.random() < 0.25 else self.single_select()
+        finally:
+            self.depth -= 1
+
+    def window(self):
+        r = self.r
+        n = self.name()
+        f = self.pick([("SUM(%s)" % n, agg("SUM", col(n))), ("row_number()", fn("row_number")), ("lag(%s, 1)" % n, fn("lag", col(n), lit("1"))), ("max(%s)" % n, agg("max", col(n)))])
+        parts, ords, rows = (), (), None
+        inner = []
+        if r.random() < 0.6:
+            ps = [self.atom_col() for _ in range(r.randint(1, 2))]
+            inner.append("PARTITION BY " + ", ".join(p[0] for p in ps))
+            parts = tuple(p[1] for p in ps)
+        if r.random() < 0.6:
+            o, ords = self.order_items()
+            inner.append("ORDER BY " + o)
+        if r.random() < 0.5:
+            def item(first):
+                k = r.random()
+                if k < 0.3:
+                    return "CURRENT ROW", N("ASTWindowRowItem", row_type="EnumWindowRowType.CURRENT_ROW", is_unbounded=False, row_num=None)
+                d = self.pick(["PRECEDING", "FOLLOWING"])
+                if k < 0.55:
+                    return "UNBOUNDED " + d, N("ASTWindowRowItem", row_type="EnumWindowRowType." + d, is_unbounded=True, row_num=None)
+                m = r.randint(1, 9)
+                return "%d %s" % (m, d), N("ASTWindowRowItem", row_type="EnumWindowRowType." + d, is_unbounded=False, row_num=m)
+            a, ta = item(True)
+            b, tb = item(False)
+            inner.append("ROWS BETWEEN %s AND %s" % (a, b))
+            rows = N("ASTWindowRow", from_row=ta, to_row=tb)
+        return "%s OVER (%s)" % (f[0], " ".join(inner)), N("ASTWindowExpression", window_function=f[1], partition_by_columns=parts, order_by_columns=ords, row_expression=rows)
+
+    def atom_col(self):
+        n = self.name()
+        return n, col(n)
+
+    def rich(self):
+        """expression forms beyond names, literals and one operator: (text, tree)"""
+        r = self.r
+        k = r.random()
+        if k < 0.13:
+            whens = [(self.simple_cond(), self.atom()) for _ in range(r.randint(1, 2))]
+            els = self.atom() if r.random() < 0.6 else None
+            return "CASE " + " ".join("WHEN %s THEN %s" % (c[0], v[0]) for c, v in whens) + (" ELSE " + els[0] if els else "") + " END", \
+                N("ASTCaseConditionExpression", cases=tuple(N("ASTCaseConditionItem", when=c[1], then=v[1]) for c, v in whens), else_value=els[1] if els else None)
+        if k < 0.22:
+            n = self.name()
+            whens = [(self.atom(), self.atom()) for _ in range(r.randint(1, 2))]
+            els = self.atom() if r.random() < 0.5 else None
+            return "CASE %s " % n + " ".join("WHEN %s THEN %s" % (c[0], v[0]) for c, v in whens) + (" ELSE " + els[0] if els else "") + " END", \
+                N("ASTCaseValueExpression", case_value=col(n), cases=tuple(N("ASTCaseValueItem", when=c[1], then=v[1]) for c, v in whens), else_value=els[1] if els else None)
+        if k < 0.33:
+            a, ta = self.atom_col()
+            ty = self.pick([("CHAR", False, "CHAR", None), ("SIGNED INT", True, "INT", None), ("DECIMAL(10, 2)", False, "DECIMAL", (10, 2)), ("DATE", False, "DATE", None),
+                            ("DECIMAL(8)", False, "DECIMAL", (8,)), ("STRING", False, "STRING", None), ("BIGINT", False, "BIGINT", None)])
+            return "CAST(%s AS %s)" % (a, ty[0]), N("ASTCastFunctionExpression", name=N("ASTFunctionNameExpression", schema_name=None, function_name="CAST"), column_expression=ta,
+                                                    cast_type=N("ASTCastDataType", signed=ty[1], type="EnumCastDataType." + ty[2], params=ty[3]))
+        if k < 0.39:
+            u = self.pick(["YEAR", "MONTH", "DAY"])
+            a, ta = self.atom_col()
+            return "EXTRACT(%s FROM %s)" % (u, a), N("ASTExtractFunctionExpression", name=N("ASTFunctionNameExpression", schema_name=None, function_name="EXTRACT"),
+                                                     extract_name=col(u), column_expression=ta)
+        if k < 0.47:
+            c, tc = self.simple_cond()
+            a, ta = self.atom()
+            b, tb = self.atom()
+            return "IF(%s, %s, %s)" % (c, a, b), fn("IF", tc, ta, tb)
+        if k < 0.62:
+            return self.window()
+        if k < 0.72:
+            op = self.pick([("-", "SUBTRACT"), ("~", "BITWISE_INVERSION"), ("+", "PLUS")])
+            a, ta = self.atom_col()
+            return "%s%s" % (op[0], a), N("ASTUnaryExpression", operator=N("ASTComputeOperator", enum="EnumComputeOperator." + op[1]), expression=ta)
+        if k < 0.82:
+            a, ta = self.atom()
+            b, tb = self.atom()
+            c, tc = self.atom()
+            o1, o2 = self.pick(["+", "-"]), self.pick(["*", "/"])
+            return "(%s %s %s) %s %s" % (a, o1, b, o2, c), binx(binx(ta, BIN[o1], tb), BIN[o2], tc)
+        if k < 0.88:
+            n = self.name()
+            return "db.f(%s)" % n, N("ASTNormalFunctionExpression", name=N("ASTFunctionNameExpression", schema_name="db", function_name="f"), params=(col(n),))
+        if k < 0.93:
+            return "COUNT(*)", agg("COUNT", N("ASTWildcardExpression", table_name=None))
+        if self.depth < 2:
+            q, tq = self.sub_select()
+            return "(%s)" % q, N("ASTSubQueryExpression", statement=tq)
+        return self.atom()
+
+    def simple_cond(self):
+        a, ta = self.atom_col()
+        b, tb = self.atom()
+        op = self.pick(list(CMP))
+        return "%s %s %s" % (a, op, b), cmpx(ta, CMP[op], tb)
 
     def atom(self):
         n = self.name()
@@ -91,6 +196,33 @@ class G:
         op = self.pick(list(CMP))
         t, tr = "%s %s %s" % (a, op, b), cmpx(ta, CMP[op], tb)
         k = self.r.random()
+        if self.rich_on and self.r.random() < 0.3:
+            r = self.r
+            j = r.random()
+            n = self.name()
+            if j < 0.3:
+                kw = self.pick([("LIKE", "ASTLikeExpression"), ("RLIKE", "ASTRlikeExpression"), ("REGEXP", "ASTRegexpExpression")])
+                neg = r.random() < 0.4
+                p = self.pick(["'x%'", "'^a.*'", "'_b'"])
+                return "%s %s%s %s" % (n, "NOT " if neg else "", kw[0], p), N(kw[1], is_not=neg, before_value=col(n), after_value=lit(p))
+            if j < 0.42:
+                return "NOT %s" % t, N("ASTLogicalNotExpression", expression=tr)
+            if j < 0.52:
+                c, tc = self.simple_cond()
+                return "%s XOR %s" % (t, c), N("ASTLogicalXorExpression", before_value=tr, after_value=tc)
+            if j < 0.64:
+                c, tc = self.simple_cond()
+                d, td = self.simple_cond()
+                return "(%s OR %s) AND %s" % (t, c, d), N("ASTLogicalAndExpression", before_value=N("ASTLogicalOrExpression", before_value=tr, after_value=tc), after_value=td)
+            if self.depth < 2:
+                q, tq = self.sub_select()
+                sq = N("ASTSubQueryExpression", statement=tq)
+                if j < 0.76:
+                    return "EXISTS (%s)" % q, N("ASTExistsExpression", value=sq)
+                if j < 0.9:
+                    neg = r.random() < 0.4
+                    return "%s %sIN (%s)" % (n, "NOT " if neg else "", q), N("ASTInExpression", is_not=neg, before_value=col(n), after_value=sq)
+                return "%s > (%s)" % (n, q), cmpx(col(n), "GT", sq)
         if k < 0.25:
             c, tc = self.atom()
             d, td = self.atom()
@@ -101,7 +233,8 @@ class G:
         if k < 0.35:
             n = self.name()
             neg = self.r.random() < 0.5
-            return "%s IS %sNULL" % (n, "NOT " if neg else ""), N("ASTIsExpression", is_not=neg, before_value=col(n), after_value=lit("NULL"))
+            nul = self.pick(["NULL", "NULL", "null", "Null"]) if self.rich_on else "NULL"
+            return "%s IS %s%s" % (n, "NOT " if neg else "", nul), N("ASTIsExpression", is_not=neg, before_value=col(n), after_value=lit(nul))
         if k < 0.45:
             n = self.name()
             neg = self.r.random() < 0.5
@@ -117,6 +250,21 @@ class G:
 
     def table(self):
         """(text, ASTFromTable tree)"""
+        if self.rich_on and self.depth < 2 and self.r.random() < 0.15:
+            alias = self.pick(["x1", "y2", "d3"])
+            if self.r.random() < 0.35:
+                self.depth += 1
+                try:
+                    w, tw = self.with_clause()
+                    q, tq = self.single_select(with_clause=tw)
+                finally:
+                    self.depth -= 1
+                q = w + " " + q
+            else:
+                q, tq = self.sub_select()
+            extra = self.pick([0, 0, 1])
+            return "%s(%s)%s%s%s" % ("(" * extra, q, ")" * extra, self.pick([" AS ", " "]), alias), \
+                N("ASTFromTable", name=N("ASTSubQueryExpression", statement=tq), alias=N("ASTAlisaExpression", name=alias))
         s = self.pick([None, None, "db"])
         t = self.pick(["t", "u", "orders"])
         alias = self.pick([None, None, "x1", "y2"])
@@ -124,6 +272,19 @@ class G:
         if alias:
             text += self.pick([" AS ", " ", " as "]) + alias
         return text, N("ASTFromTable", name=tbl(t, s), alias=N("ASTAlisaExpression", name=alias) if alias else None)
+
+    def with_clause(self):
+        """(text, ASTWithClause tree) with one or two tables"""
+        tabs = []
+        for i in range(self.r.randint(1, 2)):
+            n = "w%d" % (i + 1)
+            self.depth += 1
+            try:
+                q, tq = self.select(allow_with=False) if self.r.random() < 0.2 else self.single_select()
+            finally:
+                self.depth -= 1
+            tabs.append(("%s AS (%s)" % (n, q), N("ASTWithTable", name=n, statement=tq)))
+        return self.kw("WITH") + " " + ", ".join(t[0] for t in tabs), N("ASTWithClause", tables=tuple(t[1] for t in tabs))
 
     def order_items(self):
         items, trees = [], []
@@ -179,6 +340,16 @@ class G:
         tabs = [self.table() for _ in range(self.pick([1, 1, 2]))]
         text += " " + self.kw("FROM") + " " + ", ".join(t[0] for t in tabs)
         tree["from_clause"] = N("ASTFromClause", tables=tuple(t[1] for t in tabs))
+        if self.rich_on and r.random() < 0.1:
+            lvs = []
+            for i in range(r.randint(1, 2)):
+                outer = r.random() < 0.4
+                n = self.name()
+                names = ["lv%d" % i] if r.random() < 0.6 else ["lv%d" % i, "lw%d" % i]
+                text += " LATERAL VIEW %sexplode(%s) tmp%d AS %s" % ("OUTER " if outer else "", n, i, ", ".join(names))
+                lvs.append(N("ASTLateralViewClause", outer=outer, function=fn("explode", col(n)), view_name="tmp%d" % i, alias=N("ASTMultiAlisaExpression", names=tuple(names))))
+            tree["lateral_view_clauses"] = tuple(lvs)
+            self.hive = True
         joins = []
         for _ in range(self.pick([0, 0, 1, 2])):
             jt = self.pick([("JOIN", "JOIN"), ("INNER JOIN", "INNER_JOIN"), ("LEFT JOIN", "LEFT_JOIN"), ("LEFT OUTER JOIN", "LEFT_OUTER_JOIN"), ("RIGHT JOIN", "RIGHT_JOIN"),
@@ -225,24 +396,47 @@ class G:
             o, to = self.order_items()
             text += " ORDER BY " + o
             tree["order_by_clause"] = N("ASTOrderByClause", columns=to)
+        if self.rich_on and r.random() < 0.12:
+            k = r.random()
+            if k < 0.4:
+                o, to = self.order_items()
+                text += " SORT BY " + o
+                tree["sort_by_clause"] = N("ASTSortByClause", columns=to)
+            if k > 0.25 and k < 0.8:
+                cs = [self.atom_col() for _ in range(r.randint(1, 2))]
+                text += " DISTRIBUTE BY " + ", ".join(c[0] for c in cs)
+                tree["distribute_by_clause"] = N("ASTDistributeByClause", columns=tuple(c[1] for c in cs))
+            if k >= 0.8:
+                cs = [self.atom_col() for _ in range(r.randint(1, 2))]
+                text += " CLUSTER BY " + ", ".join(c[0] for c in cs)
+                tree["cluster_by_clause"] = N("ASTClusterByClause", columns=tuple(c[1] for c in cs))
+            self.hive = True
         if allow_limit and r.random() < 0.35:
             l, tl = self.limit()
             text += " " + l
             tree["limit_clause"] = tl
         return text, tree
 
-    def select(self):
+    def select(self, allow_with=True):
         r = self.r
+        wt, wc = "", None
+        if allow_with and self.rich_on and self.depth < 2 and r.random() < 0.15:
+            wt, wc = self.with_clause()
+            wt += " "
         if r.random() < 0.75:
-            return self.single_select()
-        parts = [self.single_select(allow_limit=False)]
+            t, tr = self.single_select(with_clause=wc)
+            return wt + t, tr
+        parts = [self.single_select(with_clause=wc, allow_limit=False)]
         text, elements = parts[0][0], [parts[0][1]]
         for _ in range(r.randint(1, 2)):
             u = self.pick([("UNION", "UNION"), ("UNION ALL", "UNION_ALL"), ("EXCEPT", "EXCEPT"), ("INTERSECT", "INTERSECT"), ("MINUS", "MINUS"), ("union all", "UNION_ALL")])
-            t, tr = self.single_select(allow_limit=False)
+            t, tr = self.single_select(with_clause=wc, allow_limit=False)
+            if self.rich_on and r.random() < 0.25:
+                p = self.pick([1, 1, 2])
+                t = "(" * p + t + ")" * p         # a bracketed branch (any number of brackets) is the branch itself
             text += " " + u[0] + " " + t
             elements += [N("ASTUnionType", enum="EnumUnionType." + u[1]), tr]
-        return text, N("ASTUnionSelectStatement", with_clause=EMPTY_WITH, elements=tuple(elements))
+        return wt + text, N("ASTUnionSelectStatement", with_clause=wc or EMPTY_WITH, elements=tuple(elements))
 
     def insert(self):
         r = self.r
@@ -272,7 +466,7 @@ class G:
             text += " VALUES " + ", ".join(x[0] for x in rows)
             return text, N("ASTInsertValuesStatement", with_clause=EMPTY_WITH, insert_type=N("ASTInsertType", enum="EnumInsertType." + it[1]), table_name=tbl(t, s),
                            partition=part, columns=cols, values=tuple(x[1] for x in rows))
-        q, tq = self.select()
+        q, tq = self.select(allow_with=False)
         return text + " " + q, N("ASTInsertSelectStatement", with_clause=EMPTY_WITH, insert_type=N("ASTInsertType", enum="EnumInsertType." + it[1]), table_name=tbl(t, s),
                                   partition=part, columns=cols, select_statement=tq)
 
@@ -422,8 +616,77 @@ class G:
         return "ALTER TABLE %s DROP %sPARTITION (dt='1', h=2)" % (t, "IF EXISTS " if ine else ""), N("ASTAlterTableStatement", table_name=tbl(t), expressions=(
             N("ASTAlterDropPartitionExpression", if_exists=ine, partition=part),))
 
+    def paren_case(self):
+        """statements in which a SELECT is wrapped in one to three extra bracket levels (UNION branch, CREATE TABLE AS, derived table)"""
+        r = self.r
+        self.hive = False
+        self.depth = 0
+        p = self.pick([1, 2, 2, 3])
+        k = r.random()
+        if k < 0.45:
+            a, ta = self.single_select(allow_limit=False)
+            b, tb = self.single_select(allow_limit=False)
+            u = self.pick([("UNION ALL", "UNION_ALL"), ("UNION", "UNION"), ("EXCEPT", "EXCEPT")])
+            return "%s %s %s%s%s" % (a, u[0], "(" * p, b, ")" * p), \
+                N("ASTUnionSelectStatement", with_clause=EMPTY_WITH, elements=(ta, N("ASTUnionType", enum="EnumUnionType." + u[1]), tb))
+        if k < 0.7:
+            a, ta = self.single_select()
+            return "CREATE TABLE t9 AS %s%s%s" % ("(" * p, a, ")" * p), N("ASTCreateTableAsStatement", table_name=tbl("t9"), select_statement=ta)
+        self.depth = 1
+        a, ta = self.single_select()
+        self.depth = 0
+        n = self.name()
+        tree = N("ASTSingleSelectStatement", with_clause=EMPTY_WITH,
+                 select_clause=N("ASTSelectClause", distinct=False, columns=(N("ASTSelectColumn", value=col(n), alias=None),)),
+                 from_clause=N("ASTFromClause", tables=(N("ASTFromTable", name=N("ASTSubQueryExpression", statement=ta), alias=N("ASTAlisaExpression", name="d3")),)),
+                 lateral_view_clauses=(), join_clauses=(), where_clause=None, group_by_clause=None, having_clause=None, order_by_clause=None, sort_by_clause=None,
+                 distribute_by_clause=None, cluster_by_clause=None, limit_clause=None)
+        return "SELECT %s FROM %s%s%s d3" % (n, "(" * p, a, ")" * p), tree
+
+    def misc(self):
+        r = self.r
+        s, t = self.pick([None, "db"]), self.pick(["t", "orders"])
+        q = ("%s.%s" % (s, t) if s else t)
+        k = r.random()
+        if k < 0.2:
+            p = self.pick([0, 0, 1, 2])
+            sel, ts = self.select() if p == 0 else self.single_select()
+            return "CREATE TABLE %s AS %s%s%s" % (q, "(" * p, sel, ")" * p), N("ASTCreateTableAsStatement", table_name=tbl(t, s), select_statement=ts)
+        if k < 0.35:
+            ie = r.random() < 0.5
+            return "DROP TABLE %s%s" % ("IF EXISTS " if ie else "", q), N("ASTDropTableStatement", if_exists=ie, table_name=tbl(t, s))
+        if k < 0.45:
+            return "TRUNCATE TABLE " + q, N("ASTTruncateTable", table_name=tbl(t, s))
+        if k < 0.52:
+            return "USE db", N("ASTUseStatement", schema_name="db")
+        if k < 0.62:
+            kv = self.pick([("hive.exec.dynamic.partition", "true"), ("mapreduce.job.queue-name", "root.q"), ("a", "b")])
+            return "SET %s = %s" % kv, N("ASTSetStatement", config=N("ASTConfigStringExpression", name=kv[0], value=kv[1]))
+        if k < 0.78:
+            self.hive = True
+            part = r.random() < 0.5
+            fc, cm, ns = r.random() < 0.4, r.random() < 0.3, r.random() < 0.3
+            return "ANALYZE TABLE %s%s COMPUTE STATISTICS%s%s%s" % (q, " PARTITION (dt='1')" if part else "", " FOR COLUMNS" if fc else "", " CACHE METADATA" if cm else "", " NOSCAN" if ns else ""), \
+                N("ASTAnalyzeTableStatement", table_name=tbl(t, s), partition=N("ASTPartitionExpression", partitions=(cmpx(col("dt"), "EQ", lit("'1'")),)) if part else None,
+                  for_columns=fc, cache_metadata=cm, noscan=ns)
+        if k < 0.85:
+            self.hive = True
+            return "MSCK REPAIR TABLE " + q, N("ASTMsckRepairTableStatement", table_name=tbl(t, s))
+        if k < 0.9:
+            return "SHOW DATABASES", N("ASTShowDatabasesStatement")
+        if k < 0.94:
+            return "SHOW TABLES", N("ASTShowTablesStatement")
+        c, tc = self.simple_cond()
+        w = r.random() < 0.5
+        return "SHOW COLUMNS FROM %s%s" % (q, " WHERE " + c if w else ""), \
+            N("ASTShowColumnsStatement", from_clause=N("ASTFromClause", tables=(N("ASTFromTable", name=tbl(t, s), alias=None),)), where_clause=N("ASTWhereClause", condition=tc) if w else None)
+
     def statement(self):
+        self.hive = False
+        self.depth = 0
         k = self.r.random()
+        if self.rich_on and k > 0.93:
+            return self.misc()
         if k < 0.4:
             return self.select()
         if k < 0.55:
